@@ -50,6 +50,9 @@ CLAIMED = {
  "C03": ("must-fact (belief-contradiction) rule on every cursor move of the recursion check, event language (loop head / progress action) on the CFG of the parse loop",
          "Decides necessary conditions of both sentences: in the left-recursion check every move that abandons a production is justified by a non-nullability fact (not by mere membership in the examined set, which is how hidden recursion behind a nullable symbol was missed) and every step past a symbol by a nullability fact, the cycle test ranges over the whole DFS stack, all symbols are roots, only GrammarIsRecursive is raised; in the parse loop no iteration can repeat without a progress action and the roll-back scan strictly decreases.",
          "Termination of parse for accepted grammars (a lexicographic measure over cursor / stack / alternative indices) and exactness of the rejection ('exactly when') are NOT proven, only their structural necessary conditions.", "3/C03"),
+ "C01": ("typestate of helper symbols (dominance, paired effects, def-use of the one suffix set), must-pass-through on the CFG of the completion branch, field-effect comparison of sibling stack-element methods, def-use on tokens / leaves / root",
+         "Decides the machinery the derivation property depends on, for every grammar and input: helper symbols are reserved names, registered before use, last in their production and removed only in pairs with their productions; on every completion path the suffix splice is evaluated before the node is handed over or returned; abandoning an alternative resets exactly what matching changed; leaves are the non-skipped tokens in order, built only on a name match with the cursor advancing by one; the returned root is the start symbol's node.",
+         "The arithmetic of common-prefix factorisation, of suffix production construction beyond its shape, and of the partial undo is NOT decided; nor which alternative is chosen. A pass means the mechanisms are wired on every path, not that every tree is a derivation.", "3/C01"),
 }
 
 NOT_APPLICABLE = {
